@@ -250,6 +250,15 @@ def program(draw, off=frozenset(OPEN)):
         b.pro_op()
     for _ in range(draw(st.integers(1, 4))):
         b.loop_op()
+    if draw(st.integers(0, 3)) == 0:
+        # a list that starts every pass empty and is refilled: the buffer of the previous pass has to be given back
+        k = draw(st.integers(1, 3))
+        form = draw(st.sampled_from(["literal", "literal", "copy_of_empty"]))
+        b.pro.append("e0 = []")
+        if form == "copy_of_empty":
+            b.pro.append("e9 = []")
+        b.loop = (["e0 = []"] if form == "literal" else ["e0 = e9"]) + [f"e0.append({draw(st.integers(0, 99))})" for _ in range(k)] + ["mon.write(len(e0))", "mon.write(e0[-1])"] + b.loop
+        b.mut_in_loop = True
     if not b.loop:
         b.loop.append("sleep(1)")
     src = HEAD + "\n".join(b.pre) + ("\n" if b.pre else "") + "\n".join(b.pro) + "\nwhile True:\n" + "\n".join("    " + x for x in b.loop) + "\n"
